@@ -192,16 +192,51 @@ def observe(obj, root, kind, beh):
         _ = root.copy()
 
 
-def project(obj, emb):
+def project(obj, emb, oids=None):
     if emb == "tensor":
-        return proj.proj_tensor(obj)
-    return {"rank0": 0, "root": proj.proj_fiber(obj), "ranks": []}
+        return proj.proj_tensor(obj, oids)
+    return {"rank0": 0, "root": proj.proj_fiber(obj, None, oids), "ranks": []}
 
 
-def do_action(obj, root, a, emb, beh=None):
+def do_action(obj, root, a, emb, beh=None, env=None):
+    """env: per-behaviour dict {refs: {step: payload}, step: n, oids}; returns extra fields to log"""
     op = a["op"]
     if op == "ref":
-        obj.getPayloadRef(*a["pt"])
+        r = obj.getPayloadRef(*a["pt"])
+        if env is not None:
+            env["refs"][env["step"]] = r
+            return {"resid": env["oids"](r) if env.get("oids") else 0}
+        return None
+    if op == "hwrite":
+        r = env["refs"][a["h"]]
+        if a["kind"] == "assign":
+            r <<= a["v"]
+        elif a["kind"] == "add":
+            r += a["v"]
+        else:
+            r *= a["v"]
+        return None
+    if op == "get" and "path" in a:
+        f = fiber_at(root, a["path"])
+        tgt = obj if (not a["path"]) else f          # Tensor-level delegation when addressing the root
+        kw = {}
+        if a["mode"] == "dflt":
+            kw = {"allocate": False, "default": 7}
+        if a["sp"] != -1:
+            kw["start_pos"] = a["sp"]
+        res = tgt.getPayload(*a["pt"], **kw)
+        if isinstance(res, Fiber):
+            return {"res": proj.proj_fiber(res, None, env.get("oids") if env else None)}
+        if isinstance(res, Payload):
+            return {"res": proj.proj_payload(res, None, env.get("oids") if env else None)}
+        return {"res": {"k": "X", "t": "returned-" + type(res).__name__}}
+    if op in ("getpos", "getposref"):
+        f = fiber_at(root, a["path"])
+        kw = {"start_pos": a["sp"]} if a["sp"] != -1 else {}
+        res = f.getPosition(a["c"], **kw) if op == "getpos" else f.getPositionRef(a["c"], **kw)
+        return {"res": -1 if res is None else int(res)}
+    if op == "ref_":
+        pass
     elif op == "write":
         r = obj.getPayloadRef(*a["pt"])
         if a["kind"] == "assign":
@@ -253,15 +288,24 @@ def execute(beh):
     """beh: {tid, init, depth, emb, steps:[action...]} -> log record for StoreTrace"""
     obj, root = build(beh)
     emb = beh["emb"]
+    oids = proj.Oids() if beh.get("ids") else None
     out = {"tid": beh["tid"], "init": beh["init"], "depth": beh["depth"], "emb": emb, "ctor": beh.get("ctor", "fromFiber"),
-           "init0": project(obj, emb), "steps": []}
-    for a in beh["steps"]:
+           "init0": project(obj, emb, oids), "steps": []}
+    env = {"refs": {}, "step": 0, "oids": oids}
+    for n, a in enumerate(beh["steps"]):
         exc = "ok"
+        extra = None
+        env["step"] = n + 1
         try:
-            do_action(obj, root, a, emb, beh)
+            extra = do_action(obj, root, a, emb, beh, env)
         except BaseException as ex:  # noqa: B036 - parsers call sys.exit
             exc = classify_exc(ex)
         if emb == "tensor":
             root = obj.getRoot()
-        out["steps"].append({"act": a, "exc": exc, "post": project(obj, emb)})
+        ev = {"act": a, "exc": exc, "post": project(obj, emb, oids)}
+        if extra:
+            ev.update(extra)
+        else:
+            ev.update({"res": {"k": "N"}, "resid": 0} if a["op"] in ("get", "ref") else {})
+        out["steps"].append(ev)
     return out
